@@ -34,7 +34,11 @@ func describe(s *prog.Script) string {
 		ret = "!err"
 	}
 	if s.Unary {
-		return fmt.Sprintf("#%d unary h=[%s]%s", s.Tag, actsString(s.Handler), ret)
+		bad := ""
+		if s.BadReq {
+			bad = "(request fails to marshal)"
+		}
+		return fmt.Sprintf("#%d unary%s h=[%s]%s", s.Tag, bad, actsString(s.Handler), ret)
 	}
 	return fmt.Sprintf("#%d c=[%s] h=[%s]%s", s.Tag, actsString(s.Client), actsString(s.Handler), ret)
 }
@@ -250,6 +254,12 @@ func scenario(id string, seed uint64, family string) runner.Result {
 			s = prog.GenClean(r, uint64(i+1), cfg)
 		} else {
 			s = prog.GenAbort(r, uint64(i+1), cfg, payload.Pick(r, prog.AbortKinds))
+		}
+		// a unary call whose request the client's own encoder rejects: the stream exists, nothing but
+		// its close reaches the server
+		if s.Unary && r.Intn(6) == 0 {
+			s.BadReq = true
+			s.Clean = false
 		}
 		// server keeps sending after the client has gone away: leftovers for the next RPC to meet
 		if !s.Unary && r.Intn(4) == 0 {
